@@ -4,36 +4,30 @@
   `Model.ScriptEval` mirrors bitcoin/core/scripteval.py (repaired for D4 / D5); `Spec.Script.Ref`
   is the reference interpreter in the shape of Bitcoin Core's interpreter.cpp.  Both use the same
   opaque primitives `Env` (three hash functions, `sigCheck`).  Helper lemmas:
-  Proofs/ScriptEquiv*.lean, Proofs/ScriptNumCodec.lean.
+  Proofs/ScriptEquiv*.lean, Proofs/ScriptNumCodec.lean, Proofs/ScriptOpEnc.lean, Proofs/ScriptFad.lean.
 
-  PROVED for every opcode class except the signature-checking opcodes: pushes (all four
-  encodings, truncation), small integers, flow control (IF / NOTIF / ELSE / ENDIF with `vfExec`,
-  VERIFY, RETURN), stack and altstack manipulation, SIZE, EQUAL(VERIFY), the unary and binary
-  numeric opcodes with the 4-byte operand rule, WITHIN, the five hash opcodes, OP_CODESEPARATOR,
-  NOP and the upgradable NOPs (with DISCOURAGE_UPGRADABLE_NOPS), disabled opcodes and
-  OP_VERIF / OP_VERNOTIF in executed and unexecuted branches, reserved and unknown opcodes, and
-  the limits (10 000 bytes, 520 bytes, 201 counted operations, 1 000 stack items, checked after
-  every operation including pushes).
+  PROVED for EVERY opcode class: pushes (all four encodings, truncation), small integers, flow
+  control (IF / NOTIF / ELSE / ENDIF with `vfExec`, VERIFY, RETURN), stack and altstack manipulation,
+  SIZE, EQUAL(VERIFY), the unary and binary numeric opcodes with the 4-byte operand rule, WITHIN,
+  the five hash opcodes, OP_CODESEPARATOR, OP_CHECKSIG(VERIFY) and OP_CHECKMULTISIG(VERIFY) with
+  `FindAndDelete` of the signatures, the dummy element and NULLDUMMY, NOP and the upgradable NOPs
+  (DISCOURAGE_UPGRADABLE_NOPS), disabled opcodes and OP_VERIF / OP_VERNOTIF in executed and
+  unexecuted branches, reserved and unknown opcodes, and the limits (10 000 bytes, 520 bytes,
+  201 counted operations including multisig keys, 1 000 stack items, checked after every operation
+  including pushes).
 
-  MISSING (hence the `_partial` names): the simulation lemmas for OP_CHECKSIG, OP_CHECKSIGVERIFY,
-  OP_CHECKMULTISIG, OP_CHECKMULTISIGVERIFY (`uncoveredOps`), i.e. `FindAndDelete` model = reference
-  on a parsed script, the index arithmetic of `_CheckMultiSig` against the reference's
-  take / drop formulation, and the transport of `pbegincodehash` (the model keeps the
-  separator, the reference starts after it).  For these four opcodes the agreement rests on the
-  correspondence run (harness/props/c06.py: real signatures, CODESEPARATOR shapes, 0..20 keys).
-  The theorems below therefore carry the hypothesis `ScriptCovered` (no such opcode occurs in the
-  scripts that get evaluated).
-
-  -- UNPROVED (full statement):
-  --   theorem eval_equiv (c fl stack script) (h : 0 ≤ c.inIdx) (hs : ∀ x ∈ stack, x.length < 2^32)
-  --       (hc : ∀ b p s ht, c.env.sigCheck b p (0xab :: s) ht = c.env.sigCheck b p s ht) :
-  --     match evalScript c fl stack script with
-  --     | .ok s' => Ref.evalScript c.env fl stack script = some s'
-  --     | .error _ => Ref.evalScript c.env fl stack script = none
-  --   theorem verify_equiv (c fl sig spk) (h : 0 ≤ c.inIdx) (hf : fl.admissible) (hc : …as above…) :
-  --     (verifyScript c fl sig spk = .ok ()) ↔ (Ref.verifyScript c.env fl sig spk = true)
+  Hypotheses of the full theorems (`eval_equiv`, `eval_stack`, `verify_equiv`):
+  * `0 ≤ c.inIdx` — the reference takes an unsigned input index (negative indices: C07, D7);
+  * `CodesepInsensitive c.env` — the signature check does not depend on a leading
+    OP_CODESEPARATOR of the script code: the model keeps the last executed separator in front of the
+    subscript, the reference starts after it, and the legacy signature hash removes every
+    separator before hashing (C03 `findAndDelete_codesep`);
+  * `HashesOK` — hash outputs are at most 520 bytes (20 / 32 for the real ones);
+  * for `EvalScript` from a caller-supplied stack: at most 1 000 items of less than 2³² bytes
+    (C07's invariant carries this through the run; `VerifyScript` starts from the empty stack).
+  The `_partial` variants need none of these and hold for scripts without the four signature opcodes.
 -/
-import BtcVerif.Proofs.ScriptEquivVerify
+import BtcVerif.Proofs.ScriptEquivFull
 import BtcVerif.Proofs.ScriptNumCodec
 
 namespace BtcVerif.C06
@@ -84,7 +78,9 @@ theorem predicates_equiv (s : Bytes) :
 /-- `step_equiv`: one iteration of the interpreter loop on corresponding states.  If the model's
     iteration succeeds so does the reference's, in the corresponding state (same stack, altstack,
     `vfExec`, operation count; `pbegincodehash` related by `CodeRel`); if the model raises, the
-    reference returns false.  All opcode classes except `uncoveredOps`. -/
+    reference returns false.  This variant has no side hypotheses and covers every opcode class
+    except the four signature opcodes (`uncoveredOps`); those are covered by `step_simT`
+    (Proofs/ScriptEquivFull.lean) under the hypotheses of `eval_equiv`. -/
 theorem step_equiv (c : Ctx) (fl : Flags) (script : Bytes) (op : RawOp) (pc' code : Bytes) (st : St)
     (hcov : op.opcode ∉ uncoveredOps)
     (hd1 : op.opcode ≤ 0x4e → op.data.isSome) (hd2 : op.opcode > 0x4e → op.data = none)
@@ -96,10 +92,10 @@ theorem step_equiv (c : Ctx) (fl : Flags) (script : Bytes) (op : RawOp) (pc' cod
     | .error _ => Ref.loopBody c.env fl op.opcode (op.data.getD []) pc' (toRef st code) = none :=
   step_sim c fl script op pc' code st hcov hd1 hd2 hsep hcode hnop
 
-/-- `eval_equiv` + `eval_stack`, partial: for ANY initial stack, flag set and script bytes free of
-    the four signature opcodes, `EvalScript` fails exactly when the reference fails, and
-    otherwise leaves exactly the reference's final stack.
-    Missing for the full statement: the classes in `uncoveredOps` (see the header). -/
+/-- hypothesis-free variant of `eval_equiv` + `eval_stack`: for ANY initial stack (no size bound),
+    flag set, context and script bytes free of the four signature opcodes, `EvalScript` fails
+    exactly when the reference fails, and otherwise leaves exactly the reference's final stack.
+    (`_partial`: restricted to `ScriptCovered` scripts; the unrestricted statement is `eval_equiv`.) -/
 theorem eval_equiv_partial (c : Ctx) (fl : Flags) (stack : List Bytes) (script : Bytes)
     (hcov : ScriptCovered script) :
     match evalScript c fl stack script with
@@ -126,15 +122,67 @@ theorem eval_stack_partial (c : Ctx) (fl : Flags) (stack : List Bytes) (script :
   rw [h] at h2
   exact Option.some.inj h2
 
-/-- `verify_equiv`, partial: under each of the 12 admissible flag sets `VerifyScript` accepts
-    exactly when the reference accepts (scriptSig, scriptPubKey and — for P2SH — the redeem script
-    free of the four signature opcodes).  Covers the P2SH rules (push-only scriptSig, redeem script =
-    last element of the copied stack) and CLEANSTACK. -/
+/-- hypothesis-free variant of `verify_equiv` (`_partial`: scriptSig, scriptPubKey and — for P2SH —
+    the redeem script free of the four signature opcodes; no assumption on the context).  Covers the
+    P2SH rules (push-only scriptSig, redeem script = last element of the copied stack) and
+    CLEANSTACK.  The unrestricted statement is `verify_equiv`. -/
 theorem verify_equiv_partial (c : Ctx) (fl : Flags) (sig spk : Bytes) (hf : fl.admissible = true)
     (hsig : ScriptCovered sig) (hspk : ScriptCovered spk)
     (hredeem : ∀ s1 x r, evalScript c fl [] sig = .ok s1 → s1 = x :: r → ScriptCovered x) :
     (verifyScript c fl sig spk = .ok ()) ↔ (Ref.verifyScript c.env fl sig spk = true) := by
   have h := verifyScript_sim c fl sig spk hf hsig hspk hredeem
+  cases hm : verifyScript c fl sig spk with
+  | ok u => rw [hm] at h; simp only [VerSim] at h; simp [h]
+  | error e => rw [hm] at h; simp only [VerSim] at h; simp [h]
+
+/-! ### the full statements -/
+
+/-- `FindAndDelete(script, CScript([sig]))`: CScriptInvalidError when `raw_iter` raises, otherwise
+    exactly the reference's (Core's tolerant) result -/
+theorem findAndDelete_equiv (cap : Captured) (script sig : Bytes) (h : sig.length < 2 ^ 32) :
+    findAndDelete cap script (Ref.pushEnc sig) =
+      if (rawIter script).2.isSome then .error (.invalid cap)
+      else .ok (Ref.findAndDelete script (Ref.pushEnc sig)) :=
+  findAndDelete_eq cap script _ (pushEnc_pat sig h)
+
+/-- `eval_equiv`: for every script (arbitrary bytes, every opcode), flag set and initial stack
+    within the limits, `EvalScript` fails exactly when the reference fails, and otherwise leaves
+    exactly the reference's final stack -/
+theorem eval_equiv (c : Ctx) (fl : Flags) (stack : List Bytes) (script : Bytes) (B : Nat)
+    (hB : 520 ≤ B) (hB2 : B < 2 ^ 32) (hh : HashesOK c.env.hashes) (hidx : 0 ≤ c.inIdx)
+    (hcs : CodesepInsensitive c.env) (hs : stack.length ≤ 1000) (he : ∀ x ∈ stack, x.length ≤ B) :
+    match evalScript c fl stack script with
+    | .ok s' => Ref.evalScript c.env fl stack script = some s'
+    | .error _ => Ref.evalScript c.env fl stack script = none :=
+  evalScript_simT c fl stack script B hB hB2 hh hidx hcs hs he
+
+/-- fails ↔ fails -/
+theorem eval_fails_iff (c : Ctx) (fl : Flags) (stack : List Bytes) (script : Bytes) (B : Nat)
+    (hB : 520 ≤ B) (hB2 : B < 2 ^ 32) (hh : HashesOK c.env.hashes) (hidx : 0 ≤ c.inIdx)
+    (hcs : CodesepInsensitive c.env) (hs : stack.length ≤ 1000) (he : ∀ x ∈ stack, x.length ≤ B) :
+    (∃ e, evalScript c fl stack script = .error e) ↔ Ref.evalScript c.env fl stack script = none := by
+  have h := eval_equiv c fl stack script B hB hB2 hh hidx hcs hs he
+  cases hm : evalScript c fl stack script with
+  | ok s' => rw [hm] at h; simp [h]
+  | error e => rw [hm] at h; simp [h]
+
+/-- `eval_stack`: same final stack when both succeed -/
+theorem eval_stack (c : Ctx) (fl : Flags) (stack : List Bytes) (script : Bytes) (B : Nat)
+    (hB : 520 ≤ B) (hB2 : B < 2 ^ 32) (hh : HashesOK c.env.hashes) (hidx : 0 ≤ c.inIdx)
+    (hcs : CodesepInsensitive c.env) (hs : stack.length ≤ 1000) (he : ∀ x ∈ stack, x.length ≤ B)
+    (s1 s2 : List Bytes) (h1 : evalScript c fl stack script = .ok s1)
+    (h2 : Ref.evalScript c.env fl stack script = some s2) : s1 = s2 := by
+  have h := eval_equiv c fl stack script B hB hB2 hh hidx hcs hs he
+  rw [h1] at h
+  rw [h] at h2
+  exact Option.some.inj h2
+
+/-- `verify_equiv`: under each of the 12 admissible flag sets, for arbitrary scriptSig and
+    scriptPubKey bytes, `VerifyScript` accepts exactly when the reference accepts -/
+theorem verify_equiv (c : Ctx) (fl : Flags) (sig spk : Bytes) (hf : fl.admissible = true)
+    (hh : HashesOK c.env.hashes) (hidx : 0 ≤ c.inIdx) (hcs : CodesepInsensitive c.env) :
+    (verifyScript c fl sig spk = .ok ()) ↔ (Ref.verifyScript c.env fl sig spk = true) := by
+  have h := verifyScript_simT c fl sig spk hf hh hidx hcs
   cases hm : verifyScript c fl sig spk with
   | ok u => rw [hm] at h; simp only [VerSim] at h; simp [h]
   | error e => rw [hm] at h; simp only [VerSim] at h; simp [h]
@@ -168,5 +216,13 @@ example : ScriptCovered [0x51, 0x52, 0x93, 0x53, 0x87] := by
 /-- … and by the empty script, on which both sides return the initial stack -/
 example (c : Ctx) (fl : Flags) (st : List Bytes) : Ref.evalScript c.env fl st [] = some st := by
   simp [Ref.evalScript, evalLoop_nil, MAX_SCRIPT_SIZE]
+
+/-- the hypotheses of the full theorems are met, e.g. by a signature check that hashes the script code
+    with every OP_CODESEPARATOR byte removed from its front -/
+example : CodesepInsensitive
+    { hashes := { sha1 := fun _ => [], ripemd160 := fun _ => [], sha256 := fun _ => [] },
+      sigCheck := fun body _ sc _ => body == sc.dropWhile (· == 0xab) } := by
+  intro body pk sc ht
+  simp [List.dropWhile]
 
 end BtcVerif.C06
